@@ -31,6 +31,8 @@ type Config struct {
 	Overrides   map[string]string
 	CrossSolver []string
 	Pin         map[string]*big.Int // pinned nondet values (translator validation / replay in engine)
+	MaxTimeS    int
+	Params      map[string]int64
 }
 
 type Path struct {
@@ -650,6 +652,34 @@ func (in *Interp) runPath(entry *ssa.Function, prefix []int64) {
 func RunJob(job *Job) *Explorer {
 	ex := NewExplorer(job.Cfg)
 	ex.queue = append(ex.queue, []int64{})
+	if job.Cfg.MaxTimeS > 0 {
+		timer := time.AfterFunc(time.Duration(job.Cfg.MaxTimeS)*time.Second, func() {
+			ex.mu.Lock()
+			if !ex.stop {
+				ex.stop = true
+				ex.Ended["time-budget"]++
+			}
+			ex.mu.Unlock()
+			ex.cond.Broadcast()
+		})
+		defer timer.Stop()
+	}
+	if os.Getenv("GOSYM_PROGRESS") != "" {
+		done := make(chan struct{})
+		defer close(done)
+		go func() {
+			for {
+				select {
+				case <-done:
+					return
+				case <-time.After(5 * time.Second):
+					ex.mu.Lock()
+					fmt.Fprintf(os.Stderr, "progress: paths=%d queue=%d active=%d ended=%v\n", ex.Paths, len(ex.queue), ex.active, ex.Ended)
+					ex.mu.Unlock()
+				}
+			}
+		}()
+	}
 	var wg sync.WaitGroup
 	n := job.Cfg.Workers
 	if n < 1 {
